@@ -38,8 +38,8 @@ PROPS = {
         '2..8 satisfiable ranges (overlapping, adjacent, duplicate, at both ends, open and suffix forms) x entity lengths {300, 1000, 1e5, 2^32+7, 2^63, 2^64-1} x 4 entity header sets (0..3 headers, up to 200-byte values) x with/without matching If-Range x honest chunkings. Non-trivial = a multipart response.' + GEN_NOTE),
     'C07': serve_prop(['poll.res'], [],
         'fault enumeration, exhaustive for streams of <= 3 (quick) / 4 (thorough) chunks: every chunk index x {early end, error, Pending then error, Pending then early end, one byte short, one extra byte, empty chunk, Pending, one extra chunk, error after completion} x shapes {200, single 206, multipart part j of n, n <= 3}; plus random faulty streams in mixed requests.' + GEN_NOTE),
-    'C12': serve_prop(['hint0', 'eos0', 'poll.hint', 'poll.eos'], [],
-        'size_hint() and is_end_stream() sampled before the first and after every poll of every body of a mixed request stream, multipart sets, fault scripts and exhaustive small chunkings.' + GEN_NOTE),
+    'C12': serve_prop(['hint0', 'eos0', 'poll.hint', 'poll.eos', 'op.hint', 'op.eos'], [],
+        'size_hint() and is_end_stream() sampled before the first and after every poll of every body of a mixed request stream, multipart sets, fault scripts and exhaustive small chunkings; and, for streaming_body bodies, after every operation of random write/flush/poll histories with and without abort / body drop, raw and gzip.' + GEN_NOTE),
     'C13': serve_prop(['status', 'hdr:allow', 'calls', 'poll.res'], [],
         'methods (standard and extension tokens) x header values from three streams (grammar-derived, near-miss, arbitrary bytes incl. >= 0x80) x repeated header lines x entity lengths {0,1,...,2^32,2^63,2^64-1} x ETag/mtime presence; panics are caught around serve() and around every poll.' + GEN_NOTE),
     'C14': serve_prop(['status', 'hdr:accept-ranges', 'hdr:etag', 'hdr:date', 'hdr:last-modified', 'hdr:content-type', 'hdr:x-*', 'hdr:content-language'], [],
